@@ -169,6 +169,62 @@ def raw_state_rule(ctx, family):
     return obs
 
 
+def sorted_position_rule(ctx, family):
+    """E3.sorted-position: the kernel constructor sorts a node's members by id (generated ids are hashes of the definition), so
+    `self.propositions[k]` is not a function of the order the constructor was given. A writer that recovers its output from a
+    fixed position therefore writes different things for models that differ only in the ids the hash happens to produce."""
+    P = ctx.program
+    obs = []
+    nw = 0
+    for c in sorted(family, key=lambda c: c.qualname):
+        w = c.methods.get("to_json")
+        if w is None:
+            continue
+        nw += 1
+        # do all members the constructor hands to the kernel carry the SAME member list (direct constructions over the same
+        # parameter, e.g. Xor = All(AtLeast(1, ps), AtMost(1, ps)))? then `self.propositions[k].propositions` is position-independent
+        same_members = False
+        init = P.lookup_method(c, "__init__")
+        if init is not None:
+            it = T.norm(T.FuncLower(P, init).term())
+            for x in T.walk(it):
+                if x[0] == 'call' and x[1][0] == 'glob' and x[1][1].endswith(".__init__"):
+                    for k_, v in x[3]:
+                        if k_.startswith('*') and v[0] == 'list' and v[1]:
+                            srcs = set()
+                            for e in v[1]:
+                                if e[0] == 'call' and e[1][0] == 'glob' and e[1][1] in P.classes and dict(e[3]).get('propositions') is not None:
+                                    srcs.add(dict(e[3])['propositions'])
+                                else:
+                                    srcs.add(('opaque', T.show(e)[:40]))
+                            same_members = len(srcs) == 1 and next(iter(srcs))[0] == 'var'
+        parents = {}
+        for node in ast.walk(w.node):
+            for ch in ast.iter_child_nodes(node):
+                parents[ch] = node
+        for node in ast.walk(w.node):
+            if isinstance(node, ast.Subscript) and isinstance(node.value, ast.Attribute) and node.value.attr == "propositions" \
+                    and isinstance(node.value.value, ast.Name) and node.value.value.id == "self" \
+                    and isinstance(node.slice, ast.Constant) and isinstance(node.slice.value, int):
+                par = parents.get(node)
+                only_members = isinstance(par, ast.Attribute) and par.attr == "propositions"
+                if same_members and only_members:
+                    obs.append(Ob(f"E3.sorted-position:{w.qualname}", "E3.sorted-position", f"{w.file}:{node.lineno} {w.qualname}", "ok",
+                                  f"self.propositions[{node.slice.value}].propositions: every member the constructor builds holds the same member list"))
+                    continue
+                obs.append(Ob(f"E3.sorted-position:{w.qualname}", "E3.sorted-position", f"{w.file}:{node.lineno} {w.qualname}", "violation",
+                              f"{w.qualname} reads self.propositions[{node.slice.value}]: members are sorted by (generated) id, so which "
+                              f"member sits there depends on hash values, not on the constructor's arguments, and the members the "
+                              f"constructor builds do not hold the same member list. Failing input (before the repair 40b4536): "
+                              f"XNor(Any('b','e'), All('c','d'), Xor('a','d')) was written with its members negated and came back "
+                              f"false instead of true at a=b=c=d=0, e=1",
+                              key=f"E3.sorted-position:{w.qualname}:{node.slice.value}"))
+    obs.append(Ob("E3.sorted-position", "E3.sorted-position", f"{nw} writers", "ok",
+                  "writers select members by structure or from stored state, never by position in the id-sorted member list "
+                  "(violations listed separately)"))
+    return obs
+
+
 def writer_of(P, ci):
     return P.lookup_method(ci, "to_json")
 
@@ -180,6 +236,7 @@ def obligations(ctx):
     family = [c for c in P.subclasses(root)]
     r1, r2 = registries(ctx)
     obs += raw_state_rule(ctx, family)
+    obs += sorted_position_rule(ctx, family)
     name_of = lambda q: q.split(".")[-1]
     # ---------------------------------------------------------------- registry exhaustiveness
     for label, reg, classes in (("plog.from_json", r1, [c for c in family if c.module.name == PLOG]),
